@@ -53,7 +53,7 @@ func Sites(sp *spec.Spec, g *valgen.G, t *spec.Type, val *spec.Val, v any, path 
 			if !TransportSafe(loc, nv) {
 				return // net/http would alter or drop the value in this location
 			}
-			if loc != valgen.Body && vtree.Kind(nv) == "s" && vtree.Text(nv) == "" {
+			if loc != valgen.Body && (vtree.Kind(nv) == "s" || vtree.Kind(nv) == "y") && vtree.Text(nv) == "" {
 				return // an empty value outside the body is absence, not a value
 			}
 			out = append(out, Site{Desc: rule + ":" + side + ":" + path, Rule: rule, Side: side, Apply: func() { set(nv) }})
